@@ -664,7 +664,13 @@ func (f *frame) load(p Val, elem types.Type, st *State) string {
 	if p.LV != nil && strings.HasPrefix(p.LV.Path, "G:") {
 		h := f.globalHeap(p.LV.Path, elem)
 		t := st.Heap(h)
-		if g.constNonNilGlobal(strings.TrimPrefix(p.LV.Path, "G:")) {
+		gname := strings.TrimPrefix(p.LV.Path, "G:")
+		stdSentinel := gname == "io.EOF" || gname == "io.ErrUnexpectedEOF"
+		if stdSentinel {
+			// sentinel errors of the standard library: package-level variables initialised with errors.New and never reassigned
+			f.c.assumed["the standard library's sentinel error "+gname+" is a non-nil error value"] = true
+		}
+		if stdSentinel || g.constNonNilGlobal(gname) {
 			switch g.TE.SortOf(elem) {
 			case SIface:
 				f.c.assume(st, fmt.Sprintf("(not (= (itag %s) 0))", t))
